@@ -307,6 +307,16 @@ where
             if stopped.is_ok() {
                 stopped = self.write_byte(STOP_TRAN_TOKEN);
             }
+            // The card may take one more byte before it signals busy, and is
+            // then busy programming for as long as after any other write: wait
+            // here, with the write timeout, rather than leave it to the next
+            // command's much shorter wait.
+            if stopped.is_ok() {
+                stopped = self.read_byte().map(|_| ());
+            }
+            if stopped.is_ok() {
+                stopped = self.wait_not_busy(Delay::new_write());
+            }
             result?;
             stopped?;
         }
